@@ -469,56 +469,94 @@ def structural_descent(facts, roles, f, cs):
     for b, bi, t in sites:
         for p in vps:
             tg = pr.op_tags(b, t["args"][p - 1])
-            if not tg or not all(x.endswith(".in") for x in tg):
+            if not tg or not all(x.endswith(".in") and ".built" not in x for x in tg):
                 return None
     return "structural descent: at all %d recursive call sites every JSON-valued argument lies strictly inside the array/object payload of a parameter (max size strictly decreases)" % len(sites)
 
 
+def tree_params(f):
+    """Parameters that carry (part of) a JSON tree: a value, one of the crate's own tree types, or a std container /
+    slice / iterator of them (`&[Value]`, `&Vec<Value>`, `slice::Iter<Value>`, `Option<&Value>` …)."""
+    out = []
+    local = [a for a in f.facts.adts if not a.startswith(("std::", "core::", "alloc::", "serde_json::", "phf::"))]
+    for i in range(1, f.arg_count + 1):
+        if f.kind == "closure" and i == 1:
+            continue
+        ty = f.local_ty(i)
+        if "serde_json::Value" in ty or "serde_json::Map" in ty or any(re.search(r"(^|[^\w:])%s($|[^\w:])" % re.escape(a), ty) for a in local):
+            out.append(i)
+    return out
+
+
 def structural_descent_mutual(facts, roles, fs, cs):
-    """Cycle f1→f2→…→f1: every call between members passes only strict sub-structures of the caller's parameters."""
+    """Size-change reading of a cycle f1→f2→…→f1.  Every call between members hands on, in each tree-carrying
+    parameter position, (a part of) a tree-carrying parameter of the caller: the largest tree in play never grows.  A
+    call is *strict* when every such argument lies strictly inside an array/object payload (or a field / variant payload
+    of one of the crate's tree types).  The cycle descends iff its calls without the strict ones form no cycle — how the
+    members split the work between them (who unwraps the array, who walks it, who handles one item) does not matter."""
     seeds = {}
+    members = {f.key: f for f in fs}
     for f in fs:
-        vps = value_params(f)
+        vps = tree_params(f)
         if not vps:
             return None
         for p in vps:
             seeds[(f.key, p)] = {"P"}
     pr = P.Prov(roles, seeds=seeds, mark_inner=True).run()
-    keys = {f.key for f in fs}
-    n = 0
-    for k in cs:
+    edges = []          # (caller root, callee, strict)
+
+    def root_of(k):
+        while "::{closure#" in k and k not in members:
+            k = k.rsplit("::{closure#", 1)[0]
+        return k
+
+    for k in sorted(cs):
         b = facts.body(k)
-
-        def check_call(args_tags):
-            return all(tg and all(x.endswith(".in") for x in tg) for tg in args_tags)
-
         for bi, t in b.calls():
             c = callee_of(t)
             targets = []
-            if c and c.get("key") in keys:
-                targets.append((c["key"], [pr.op_tags(b, a) for a in t["args"]]))
-            # members passed as callables to adaptors (`.map(Value::from)`): their parameter gets the other arguments' tags
-            for f2 in (t.get("callee") or {}).get("fwd", []) + [x.get("fn", {}).get("resolved") or {} for x in [op_const(a) or {} for a in t["args"]]]:
-                pass
+            if c and c.get("key") in members:
+                targets.append((c["key"], [pr.op_tags(b, a) for a in t["args"]], None))
+            # members passed as callables to adaptors (`.map(Value::from)`): their parameters receive the other arguments
             for a in t["args"]:
                 cc = op_const(a)
                 if cc and "fn" in cc:
                     r = cc["fn"].get("resolved") or cc["fn"]
-                    fw = [r] + [x for x in cc["fn"].get("fwd", [])]
-                    for r2 in fw:
-                        if r2.get("key") in keys:
-                            others = [pr.op_tags(b, x) for x in t["args"] if x is not a]
-                            targets.append((r2["key"], others))
-            for fk, tags in targets:
-                fb = facts.body(fk)
-                vps = value_params(fb)
-                rel = tags[:len(vps)] if len(tags) >= len(vps) else tags
-                if not rel or not check_call(rel):
-                    return None
-                n += 1
-    if n == 0:
+                    for r2 in [r] + list(cc["fn"].get("fwd", [])):
+                        if r2.get("key") in members:
+                            others = set()
+                            for x in t["args"]:
+                                if x is not a:
+                                    others |= pr.op_tags(b, x)
+                            targets.append((r2["key"], None, others))
+            for fk, tags, spread in targets:
+                vps = tree_params(members[fk])
+                rel = [tags[p - 1] for p in vps if p - 1 < len(tags)] if tags is not None else [spread] * len(vps)
+                if not rel or any((not tg) or any(x not in ("P", "P.in") for x in tg) for tg in rel):
+                    return None       # a tree that is not (part of) a parameter of the caller: built, computed, foreign
+                strict = all(all(x.endswith(".in") for x in tg) for tg in rel)
+                edges.append((root_of(k), fk, strict))
+    if not edges:
         return None
-    return "structural descent through %d call sites of the cycle: each passes only strict sub-structures (fields / variant payloads / collection elements) of the caller's tree-typed parameter" % n
+    weak = defaultdict(set)
+    for u, v, strict in edges:
+        if not strict:
+            weak[u].add(v)
+    color = {}
+
+    def dfs(n):
+        color[n] = 1
+        for m in weak.get(n, ()):
+            if color.get(m) == 1 or (m not in color and not dfs(m)):
+                return False
+        color[n] = 2
+        return True
+
+    for n in list(weak):
+        if n not in color and not dfs(n):
+            return None
+    ns = sum(1 for e in edges if e[2])
+    return "structural descent through %d call sites of the cycle: none hands on a tree that is not (part of) a tree-carrying parameter of its caller, %d go strictly inside an array/object payload (or a field / variant payload of a tree type), and the other %d form no cycle among themselves" % (len(edges), ns, len(edges) - ns)
 
 
 def variant_descent(facts, roles, f, cs):
